@@ -58,12 +58,12 @@ Step ==
        [] e.ev = "Spont"     -> AbsSpontaneous(e.w, Acks(e), Nfs(e)) /\ UNCHANGED <<rel, run>>
        [] e.ev = "Take"      -> ObsHand(Got(e)) /\ UNCHANGED <<rel, run>>
   /\ (viol' # viol /\ viol' # {}) =>
-        PrintT(<<"VIOL", "line", l, "run", run', "clauses", viol' \ viol>>)
+        PrintT("VIOL line=" \o ToString(l) \o " run=" \o ToString(run') \o " clauses=" \o ToString(viol' \ viol))
 
 TraceSpec == TraceInit /\ [][Step]_tvars
 
 TraceAccepted ==
   LET d == TLCGet("stats").diameter IN
-  IF d = Len(Rec) + 1 THEN PrintT(<<"TRACE-OK", Len(Rec)>>)
-  ELSE PrintT(<<"TRACE-STUCK", "line", d, "event", Rec[d]>>) /\ FALSE
+  IF d = Len(Rec) + 1 THEN PrintT("TRACE-OK events=" \o ToString(Len(Rec)))
+  ELSE PrintT("TRACE-STUCK line=" \o ToString(d)) /\ PrintT(Rec[d]) /\ FALSE
 ==========================================================================
